@@ -1,6 +1,7 @@
 package main
 
 import (
+	"strings"
 	"flag"
 	"fmt"
 	"os"
@@ -65,10 +66,48 @@ func run(repo, prop, tier string, seed int, out, known, cg, arg string) (code in
 		return debugRange(p, arg)
 	case "acc":
 		return debugAccesses(p, arg)
+	case "origin":
+		return debugOrigin(p, arg)
 	case "dep":
 		return debugDep(p, arg)
 	case "dump":
 		return debugDump(p, arg)
+	}
+	if prop == "all" || strings.Contains(prop, ",") {
+		// several checks on one loaded program (used by the self-test; each property keeps its own evidence file)
+		var ids []string
+		if prop == "all" {
+			for id := range registry {
+				ids = append(ids, id)
+			}
+		} else {
+			ids = strings.Split(prop, ",")
+		}
+		sort.Strings(ids)
+		worst := 0
+		for _, id := range ids {
+			f, ok := registry[id]
+			if !ok {
+				fmt.Printf("CHECK-BROKEN property=%s reason=no such check\n", id)
+				worst = 2
+				continue
+			}
+			c := func() (c int) {
+				defer func() {
+					if e := recover(); e != nil {
+						fmt.Printf("CHECK-BROKEN property=%s reason=analyzer panic: %v\n%s\n", id, e, debug.Stack())
+						c = 2
+					}
+				}()
+				rr := newReporter(id, tier, seed, out, known)
+				f(p, rr)
+				return rr.Finish(p)
+			}()
+			if c > worst {
+				worst = c
+			}
+		}
+		return worst
 	}
 	f, ok := registry[prop]
 	if !ok {
